@@ -238,6 +238,34 @@ func (p *pkg) fieldLiteralIn(fn, field string) string {
 	return res
 }
 
+// fieldRegexIn: the string literal handed to regexp.MustCompile as the value of `field:` in a composite literal in fn
+func (p *pkg) fieldRegexIn(fn, field string) string {
+	res, found := "", false
+	ast.Inspect(p.funcDeclRecv(fn, "").Body, func(n ast.Node) bool {
+		kv, ok := n.(*ast.KeyValueExpr)
+		if !ok {
+			return true
+		}
+		if id, ok := kv.Key.(*ast.Ident); ok && id.Name == field {
+			call, ok := kv.Value.(*ast.CallExpr)
+			if !ok || len(call.Args) != 1 {
+				die("%s in %s is not a one-argument call", field, fn)
+			}
+			lit, ok := call.Args[0].(*ast.BasicLit)
+			if !ok || lit.Kind != token.STRING {
+				die("%s in %s: the regular expression is not a string literal", field, fn)
+			}
+			res, _ = strconv.Unquote(lit.Value)
+			found = true
+		}
+		return true
+	})
+	if !found {
+		die("no %s: in %s", field, fn)
+	}
+	return res
+}
+
 // fieldExprIn: the source text of the value given to `field:` in a composite literal inside package-level func fn
 func (p *pkg) fieldExprIn(fn, field string) string {
 	res := ""
@@ -776,6 +804,24 @@ func main() {
 		calls := lfs.callsIn("DecodeFrom")
 		facts["DecodeFrom_calls"] = calls
 		return fmt.Sprintf("-- advisory: calls in DecodeFrom: %v", calls)
+	})
+	// ---- lfs/gitscanner_log.go (C05): which lines of `git log -p` output count as pointer data.
+	// The expression must have the frame ^([\+\- ])(A|B|...).*$ with literal alternatives; the alternatives
+	// become LogScan's prefix list.
+	emit("logDataPrefixes", func() string {
+		re := lfs.fieldRegexIn("newLogScanner", "pointerDataRegex")
+		facts["pointerDataRegex"] = re
+		const head, tail = `^([\+\- ])(`, `).*$`
+		if !strings.HasPrefix(re, head) || !strings.HasSuffix(re, tail) {
+			die("pointerDataRegex %q does not have the frame %s...%s", re, head, tail)
+		}
+		alts := strings.Split(re[len(head):len(re)-len(tail)], "|")
+		for _, a := range alts {
+			if a == "" || strings.ContainsAny(a, `\.+*?()[]{}^$`) {
+				die("pointerDataRegex alternative %q is not a literal", a)
+			}
+		}
+		return "def logDataPrefixes : List Bytes := " + bytesList(alts)
 	})
 	// ---- config/git_fetcher.go + docs/man/git-lfs-config.adoc (C11)
 	emit("safeKeys", func() string { return "def safeKeys : List Bytes := " + bytesList(cfg.strs("safeKeys")) })
